@@ -1051,7 +1051,13 @@ func spillSources(v ssa.Value) []ssa.Value {
 // termMatchesLifted: the term matches the pattern in fn, or — when it is built from fn's parameters —
 // at every static call site of fn after substituting the arguments (two levels).
 func (p *Prog) termMatchesLifted(fn *ssa.Function, t *Term, pat string, depth int) bool {
-	if ParsePat(pat).Match(t, Binds{}) {
+	return p.termLifted(fn, t, depth, func(_ *ssa.Function, x *Term) bool { return ParsePat(pat).Match(x, Binds{}) })
+}
+
+// termLifted: pred holds for the term in fn, or — when the term is built from fn's parameters — at
+// every static call site of fn after substituting the arguments (two levels).
+func (p *Prog) termLifted(fn *ssa.Function, t *Term, depth int, pred func(f *ssa.Function, t *Term) bool) bool {
+	if pred(fn, t) {
 		return true
 	}
 	if depth >= 2 {
@@ -1079,7 +1085,7 @@ func (p *Prog) termMatchesLifted(fn *ssa.Function, t *Term, pat string, depth in
 				m[prm.Name()] = cfi.T(cs.Instr.Common().Args[i])
 			}
 		}
-		if !p.termMatchesLifted(cs.Caller, t.subst(m), pat, depth+1) {
+		if !p.termLifted(cs.Caller, t.subst(m), depth+1, pred) {
 			return false
 		}
 	}
